@@ -1,7 +1,7 @@
 (* Props/C01.v -- property C01: decompile then recompile reproduces the binary bit-for-bit.
    Statements only; proofs are [exact lemma]. *)
-From TV Require Import Base.I32 Model.Abi Model.Diff Model.Time Model.Stream Spec.AbiFit
-  Proofs.AbiReencode Proofs.Diff Proofs.Time Proofs.StreamRoundtrip Gen.ArgCodec.
+From TV Require Import Base.I32 Model.Abi Model.Diff Model.Time Model.Stream Model.Container Spec.AbiFit
+  Proofs.AbiReencode Proofs.Diff Proofs.Time Proofs.StreamRoundtrip Proofs.ContainerScript Proofs.BytesRoundtrip Gen.ArgCodec.
 Open Scope Z_scope.
 
 (* The instruction-stream core (PARTIAL w.r.t. the full property, see C01_full below):
@@ -22,6 +22,29 @@ Theorem C01_stream_roundtrip :
   decompile_script sjis_dec gen_codec fd jumps is = Ok x ->
   compile_script sjis_enc gen_codec has_regs fd x = Ok is.
 Proof. exact stream_roundtrip. Qed.
+
+(* The same at the level of BYTES, for every script the writer can emit (C03's container model over the header
+   tables regenerated from the nine `impl InstrFormat` blocks, composed with the stream round trip above):
+   for a format with an end marker, any instruction list that fits its header fields, any bytes after the
+   script: the writer produces bytes bs; whatever the reader reads back from bs (followed by anything), if the
+   stream decompiles without a loss warning then the text model compiles, and writing the compiled
+   instructions gives bs again -- byte for byte.  [to_instr]/[of_instr] (Proofs/BytesRoundtrip.v) say which
+   header fields feed which part of the stream: time, difficulty byte, opcode -> signature, blob + param mask. *)
+Theorem C01_script_bytes_roundtrip :
+  forall (sjis_enc : list Z -> option bytes) (sjis_dec : bytes -> option (list Z)) has_regs fd,
+  Consistent fd ->
+  forall f sig_of (xs : list (Z * rinstr)) rest start endo jumps,
+  let l := map (fun p => to_instr (fst p) (snd p)) xs in
+  fmt_ok f = true -> f_tkind f = TTerminal -> Forall (fun i => fitsb f i = true) l ->
+  end_allows endo (start + size_seq f l) ->
+  Forall (fun p => sig_of (fst p) = ri_sig (snd p)) xs ->
+  Forall in_i32 (map ri_time (map snd xs)) -> Forall (instr_ok sjis_dec has_regs) (map snd xs) ->
+  exists bs, write_instrs f l = Ok bs /\
+    forall l', read_instrs f (bs ++ rest) start endo = Ok l' ->
+    forall x, decompile_script sjis_dec gen_codec fd jumps (map (of_instr sig_of) l') = Ok x ->
+    exists rs, compile_script sjis_enc gen_codec has_regs fd x = Ok rs /\
+               write_instrs f (zipw to_instr (map i_opcode l') rs) = Ok bs.
+Proof. exact script_bytes_roundtrip_terminal. Qed.
 
 (* The full property additionally covers: jump-offset arguments as label names (offset <-> instruction
    index through the instruction sizes), string arguments (C15), intrinsic raising/lowering and block
@@ -47,3 +70,4 @@ Example C01_example_runs :
   | _ => Panic 0%nat
   end = Ok ex_is.
 Proof. exact ex_run. Qed.
+Print Assumptions C01_script_bytes_roundtrip.
